@@ -186,7 +186,9 @@ theorem isHeap_updateCounters (hH : H.Lawful elt) (s : PosPQ) (ins : Bool) (draw
   split
   · simp only
     split
-    · exact isHeap_doMaintenance hH _ draw hs
+    · split
+      · exact isHeap_doMaintenance hH _ draw hs
+      · exact isHeap_doMaintenance hH _ draw hs
     · exact hs
   · split <;> exact hs
 
@@ -366,7 +368,7 @@ theorem updateCounters_q_equal (c : Rat) (s : PosPQ) (b : Bool) (draw : Nat → 
   · simp only [Bool.false_eq_true, if_false]; split <;> rfl
   · simp only [if_true]
     split
-    · rw [doMaintenance_equal c _ draw (by exact h)]
+    · split <;> rw [doMaintenance_equal c _ draw (by exact h)]
     · rfl
 
 end PosPQ
